@@ -6,6 +6,7 @@ import pandas as pd
 from hypothesis import strategies as st
 
 import pygaps
+from pygaps import Material
 import pygaps.modelling as pgm
 from pygaps.modelling import _GUESS_MODELS, _MODELS, get_isotherm_model
 from pygaps.utilities.exceptions import CalculationError
@@ -708,6 +709,10 @@ def check_guess(desc, ctx):
     if not lb.max() > lb.min():
         return
     meta = _meta(d["rel"])
+    rich_material = int(d["rng"]) % 2 == 1
+    if rich_material:
+        # a material that carries properties (passed as an object; the library hands it on as a dictionary)
+        meta["material"] = Material("verif-m", density=1.9, batch="B7")
     if desc["kind"] == "guess":
         names, arg = list(_GUESS_MODELS), "guess"
     else:
@@ -755,6 +760,14 @@ def check_guess(desc, ctx):
         raise Violation(f"guess over {arg} returned {got_name} (rmse {got!r}) although "
                         f"{min(alone, key=alone.get)} reports {lo!r}; all: {alone}", tag="guess_not_min")
     _assert_rmse(best, pb, lb, f"guess over {arg} -> {got_name}")
+    # the one returned is one of the candidate fits of these data: it describes the same measurement
+    want_props = {"density": 1.9, "batch": "B7"} if rich_material else {}
+    if best.material.name != "verif-m" or dict(best.material.properties) != want_props or str(best.adsorbate) != "nitrogen" \
+            or best.temperature != 77.0 or best.units != {k: meta[k] for k in best.units}:
+        raise Violation(f"guess over {arg} -> {got_name}: the returned isotherm describes another measurement: material "
+                        f"{best.material.name!r} {dict(best.material.properties)} (given 'verif-m' {want_props}), adsorbate "
+                        f"{best.adsorbate}, T {best.temperature}, units {best.units}", tag="guess_description")
+    ctx.label("material_with_properties" if rich_material else "material_plain")
     ctx.label("kind:" + desc["kind"], "api:" + desc["api"], "winner:" + got_name, f"converged:{min(len(alone), 5)}")
     if len(set(alone.values())) >= 2:
         ctx.nt([sorted(names), branch, d["rng"], d["pressure"][:3], d["loading"][:3]], desc)
@@ -847,7 +860,7 @@ def strat_point_model():
             "build": build, "points": pts, "branch": branch, "points_grid": ptsg, "meta_keys": mkeys, "spec": spec,
             "units": dict(u, temperature_unit=tunit), "adsorbate": at["adsorbate"], "material": mat},
         exact_spec(natural_only=True), st.sampled_from(["fit", "fit", "params"]),
-        st.sampled_from(["default", "list", "isotherm", "loading"]), st.sampled_from(["ads", "ads", "des"]),
+        st.sampled_from(["default", "list", "isotherm", "isotherm_foreign", "loading"]), st.sampled_from(["ads", "ads", "des"]),
         st.sampled_from(["K", "K", "°C"]), st.lists(st.sampled_from(sorted(_META)), max_size=3, unique=True), _grid(),
         S.units(), S.ads_T(), S.material())
 
@@ -900,6 +913,7 @@ def check_point_model(desc, ctx):
     u = (uu - uu[0]) / (uu[-1] - uu[0])
     req_p = pr[0] + u * (pr[1] - pr[0])
     req_p[-1] = pr[1]
+    foreign = False
     if pts == "default":
         pt = pygaps.PointIsotherm.from_modelisotherm(mi)
         exp_p = np.linspace(pr[0], pr[1], 60)
@@ -915,6 +929,19 @@ def check_point_model(desc, ctx):
         other = pygaps.PointIsotherm(pressure=pp.tolist(), loading=(np.arange(len(pp)) + 1.0).tolist(), branch=bb, **common())
         pt = pygaps.PointIsotherm.from_modelisotherm(mi, pressure_points=other)
         exp_p = pa if branch == "ads" else pdes
+    elif pts == "isotherm_foreign":
+        # a template isotherm expressed in ANOTHER pressure unit / mode than the model isotherm: which pressures are
+        # generated from it is not part of the property, but the generated points must lie on the model
+        tu = dict(units)
+        if units["pressure_mode"] == "absolute":
+            tu["pressure_unit"] = "kPa" if units["pressure_unit"] != "kPa" else "bar"
+        else:
+            tu["pressure_mode"], tu["pressure_unit"] = "absolute", "kPa"
+        other = pygaps.PointIsotherm(pressure=req_p.tolist(), loading=(np.arange(len(req_p)) + 1.0).tolist(), branch=branch,
+                                     **{**common(), **tu})
+        pt = pygaps.PointIsotherm.from_modelisotherm(mi, pressure_points=other)
+        exp_p = None
+        foreign = True
     else:
         exp_p = None
         ends = np.asarray(mi.model.loading(np.array(pr)), dtype=float)
@@ -940,6 +967,18 @@ def check_point_model(desc, ctx):
         on = np.asarray(mi.loading_at(got_p), dtype=float)
         if not (got_l.shape == on.shape and allclose(got_l, on, rel=1e-12)):
             raise Violation(f"{what}: loadings {got_l.tolist()[:6]}.. differ from model.loading_at {on.tolist()[:6]}..",
+                            tag="point_off_model")
+    elif foreign:
+        if len(got_p) != len(req_p):
+            raise Violation(f"{what}: {len(got_p)} points generated from a template of {len(req_p)}", tag="point_pressures")
+        with np.errstate(all="ignore"):
+            try:
+                on = np.asarray(mi.loading_at(got_p), dtype=float)
+            except CalculationError:
+                raise Inconclusive()
+        if not (got_l.shape == on.shape and allclose(got_l, on, rel=1e-12)):
+            raise Violation(f"{what} (template in {tu['pressure_mode']}/{tu['pressure_unit']}): generated loadings "
+                            f"{got_l.tolist()[:6]}.. differ from model.loading_at of the generated pressures {on.tolist()[:6]}..",
                             tag="point_off_model")
     else:
         if len(got_l) != len(req_l) or not np.array_equal(got_l, req_l):
